@@ -817,6 +817,9 @@ func (p *Process) onStateChange(state string) {
 	switch state {
 	case types.ProcessStateSkipped:
 		p.procState.ExitCode = 1 // the state lock is held by the caller
+	case types.ProcessStatePending:
+		// a new instance has not passed any probe nor printed its ready line yet
+		fallthrough
 	case types.ProcessStateRestarting:
 		fallthrough
 	case types.ProcessStateLaunching:
